@@ -14,7 +14,7 @@ from .. import tsparse
 from ..core import Violation, call
 from ..seams import SimCrash
 
-KINDS = [('sdo', 6), ('sco', 2), ('marking', 1), ('custom', 2), ('unreg', 3)]
+KINDS = [('sdo', 6), ('sco', 2), ('marking', 1), ('custom', 2), ('unreg', 3), ('cobs', 1)]
 OPS = ['add', 'get', 'all_versions', 'query_all', 'query_type', 'query_id', 'save_load', 'restart', 'load_into', 'rebuild_memory',
        'load_single', 'query_ts']
 FORMS_M = ['single', 'single', 'list', 'bundle_obj', 'bundle_dict']
